@@ -115,6 +115,7 @@ class C05System(BuilderSystem):
                    {"z": 0, "F": 50, "S": 80}, {"z": 0, "F": 5}):
             ops.append(["probe", ["towards"], kw])
         ops.append(["probe", ["bogus"], {"z": 0}])
+        ops += [["coolant_on", ["mist"]], ["coolant_on", ["flood"]], ["tool_on", ["ccw", 40]], ["power_on", ["constant", 40]]]     # refused while running
         ops.append(["auto_home", [], {"x": NAN}])
         for name in ("set_feed_rate", "set_tool_power"):
             for v in (-1, big, NAN, INF):
